@@ -65,6 +65,37 @@ fn stages() -> Vec<Op1> {
   v
 }
 
+/// stages with observer types of their own, for the depth-3 layer of the
+/// thorough tier (the full set cubed would be 2*10^7 pipelines)
+fn core_stages() -> Vec<Op1> {
+  vec![
+    Op1::Map,
+    Op1::Filter(P::Lt2),
+    Op1::FilterMap(P::Lt2),
+    Op1::Skip(1),
+    Op1::SkipWhile(P::Lt1),
+    Op1::SkipLast(1),
+    Op1::StartWith(vec![7]),
+    Op1::DefaultIfEmpty(9),
+    Op1::Scan,
+    Op1::Distinct,
+    Op1::DistinctUntilChanged,
+    Op1::Pairwise,
+    Op1::BufferWithCount(2),
+    Op1::OnErrorMap,
+    Op1::Finalize,
+    Op1::BoxIt,
+    Op1::GroupByFlatten(K::Mod2),
+    Op1::Delay(1),
+    Op1::ObserveOn,
+    Op1::Debounce(1),
+    Op1::ThrottleTime(1, Edge::All),
+    Op1::BufferWithTime(1),
+    Op1::SampleInterval(1),
+    Op1::SubscribeOn,
+  ]
+}
+
 fn sig(p: &Pipe) -> String {
   super::c01::sig(p)
 }
@@ -209,6 +240,16 @@ pub fn plan(tier: Tier) -> Plan {
         seqs.extend(next.iter().cloned());
         level = next;
       }
+      if tier == Tier::Thorough {
+        let core = core_stages();
+        for a in &core {
+          for b in &core {
+            for c in &core {
+              seqs.push(vec![a.clone(), b.clone(), c.clone()]);
+            }
+          }
+        }
+      }
       for seq in seqs {
         for cut in cutters() {
           let mut p = head.clone();
@@ -287,7 +328,7 @@ pub fn plan(tier: Tier) -> Plan {
       tier: tier_name(tier),
       engine: "E1 opseq".into(),
       rule: "producer in {interval(1|2), interval_at, from_iter over a pull-counting iterator, from_stream over a poll-counting stream, timer, the tickers of buffer_with_time / buffer_with_count_and_time / sample(interval)} x every sequence up to the depth bound of intermediate catalogue stages x cutter in {take(1), first, element_at(0|1), take_while(_inclusive), contains, all, first_or, take_until(timer)}, and the producer as first and as second / notifier input of every two-input operator whose output is cut (hot other input, every emit/silent pattern per tick); local and _threads forms; prompt FIFO executor on the virtual clock. After the probe's terminal: no further pull of an iterator / stream, at most one more emission of a ticker, and within one period + 2 ticks no ready task and no live timer is left; non-trivial = something was delivered".into(),
-      bounds: json!({"stage_depth": depth, "pipelines": n_pipes, "iterator_items": N_ITEMS}),
+      bounds: json!({"stage_depth": depth, "stage_depth_core_stages": if tier == Tier::Thorough { 3 } else { depth }, "core_stages": core_stages().len(), "pipelines": n_pipes, "iterator_items": N_ITEMS}),
       assumptions: vec![
         "pipelines whose cutter never fires within the horizon are counted as skipped_unspecified".into(),
         "share() between producer and cutter is a multicast boundary: its source works for the shared subject, which is released by unsubscribing (C11), not by one subscriber finishing; not part of this check".into(),
